@@ -17,6 +17,8 @@ import (
 	"math"
 	"math/big"
 	"os"
+	"path/filepath"
+	"regexp"
 	"strconv"
 	"strings"
 
@@ -410,6 +412,71 @@ func c03RandFloatBits(r *hx.Rng) uint64 {
 	return be<<52 | mant
 }
 
+// c03Tables reads the data tables of the slow decimal path from the source text
+// of the tree under test (the package is internal and the tables unexported):
+// leftcheats (decimal.go), powtab (atof.go), the digit buffer size and
+// float64info. The Coq side compares them with the tables of Model/Decimal.v
+// and checks the property of leftcheats that the shift proofs rely on. A source
+// layout this reader does not recognise is counted, not reported.
+func c03Tables(o *hx.Out) {
+	root := os.Getenv("VERIF_REPO")
+	if root == "" {
+		root = "/repo"
+	}
+	dir := filepath.Join(root, "benchfmt", "internal", "bytesconv")
+	dec, err1 := os.ReadFile(filepath.Join(dir, "decimal.go"))
+	atof, err2 := os.ReadFile(filepath.Join(dir, "atof.go"))
+	ftoa, err3 := os.ReadFile(filepath.Join(dir, "ftoa.go"))
+	if err1 != nil || err2 != nil || err3 != nil {
+		o.Count("tables=unreadable")
+		return
+	}
+	start := regexp.MustCompile(`(?m)^var leftcheats = \[\]leftCheat\{`).FindIndex(dec)
+	if start == nil {
+		o.Count("tables=unrecognised")
+		return
+	}
+	body := dec[start[1]:]
+	if end := bytes.Index(body, []byte("\n}")); end >= 0 {
+		body = body[:end]
+	}
+	var cheats []hx.Sx
+	for _, m := range regexp.MustCompile(`(?m)^\s*\{(\d+), "(\d*)"\},`).FindAllSubmatch(body, -1) {
+		d, _ := strconv.Atoi(string(m[1]))
+		cheats = append(cheats, hx.L(hx.I(d), hx.B(m[2])))
+	}
+	pm := regexp.MustCompile(`(?m)^var powtab = \[\]int\{([0-9, ]+)\}`).FindSubmatch(atof)
+	bm := regexp.MustCompile(`(?m)^\s*d\s+\[(\d+)\]byte`).FindSubmatch(dec)
+	fm := regexp.MustCompile(`(?m)^var float64info = floatInfo\{(\d+), (\d+), (-?\d+)\}`).FindSubmatch(ftoa)
+	if len(cheats) == 0 || pm == nil || bm == nil || fm == nil {
+		o.Count("tables=unrecognised")
+		return
+	}
+	var pt []hx.Sx
+	for _, f := range strings.Split(string(pm[1]), ",") {
+		v, err := strconv.Atoi(strings.TrimSpace(f))
+		if err != nil {
+			o.Count("tables=unrecognised")
+			return
+		}
+		pt = append(pt, hx.I(v))
+	}
+	var consts []hx.Sx
+	for _, f := range [][]byte{bm[1], fm[1], fm[2], fm[3]} {
+		v, _ := strconv.Atoi(string(f))
+		consts = append(consts, hx.I(v))
+	}
+	o.Count("tables=read")
+	o.Add(hx.L(hx.I(2), hx.List(cheats), hx.List(pt), hx.List(consts)),
+		c03Input{"tables", "leftcheats/powtab/float64info of benchfmt/internal/bytesconv", "tables", len(cheats)}, "tables", true)
+}
+
+// c03Extra is set by c03_decimal.go (build tag verifdecimal, which needs the bridge
+// extension hooks/verifbridge_decimal.go + hooks/bytesconv_decimal_verif_export.go
+// installed in the tree under test): operation-by-operation comparison of
+// decimal.go with its transcription.
+var c03Extra func(o *hx.Out, r *hx.Rng, tier string)
+
 func genC03(o *hx.Out, r *hx.Rng, tier string, replay string) error {
 	o.Rule = "numeric texts: integers of 1-25 digits around 2^53, 2^63, 2^64, 10^18, 10^19 and the reader's fast-path guard; " +
 		"decimals with 1-400 significant digits (more than 800 in thorough) and exponents over -345..+310; exact halfway points " +
@@ -418,6 +485,7 @@ func genC03(o *hx.Out, r *hx.Rng, tier string, replay string) error {
 		"signs; byte-level mutations of valid texts. Each text goes through bytesconv.ParseFloat or Atoi/ParseInt/ParseUint, through strconv, " +
 		"and through benchfmt.Reader as a measurement or iteration count. non-trivial = not a syntax error; distinct by text"
 	c := &c03Ctx{o: o, seen: map[string]bool{}}
+	c03Tables(o)
 	th := tier == "thorough"
 	scale := func(q, t int) int {
 		if th {
@@ -674,6 +742,9 @@ func genC03(o *hx.Out, r *hx.Rng, tier string, replay string) error {
 		"4.9406564584124654e-324", "0x1p-1074", "+1.7976931348623157e+308", "922337203685477580"}
 	for i := 0; i < scale(900, 20000); i++ {
 		c.fcase("mutated", c03Mutate(r, seeds[r.Intn(len(seeds))], "0123456789.eEpPxX+-_infatyINFATY 0000"))
+	}
+	if c03Extra != nil {
+		c03Extra(o, r.Split(), tier)
 	}
 	return nil
 }
